@@ -1074,31 +1074,6 @@ class XmlDocument(SubXmlBase):
 
             inst._safe_set(key, value, member, member_attrs)
 
-            for key, value_str in c.attrib.items():
-                submember = flat_type_info.get(key, None)
-
-                if submember is None:
-                    submember, key = cls._type_info_alt.get(key, (None, key))
-                    if submember is None:
-                        continue
-
-                if not issubclass(submember, XmlAttribute):
-                    continue
-
-                submember_attrs = self.get_cls_attrs(submember)
-                mo = submember_attrs.max_occurs
-                if mo > 1:
-                    value = getattr(inst, key, None)
-                    if value is None:
-                        value = []
-
-                    value.append(self.from_unicode(submember.type, value_str))
-
-                else:
-                    value = self.from_unicode(submember.type, value_str)
-
-                inst._safe_set(key, value, submember.type, submember_attrs)
-
         for key, value_str in elt.attrib.items():
             member = flat_type_info.get(key, None)
             if member is None:
